@@ -648,6 +648,10 @@ def least_right_singular_vectors(
 
     V = V_H.conjugate().transpose()
 
+    # When A has more columns than rows the last right singular vectors have
+    # no entry in S: their singular value is zero
+    S = np.concatenate([S, np.zeros(V.shape[0] - S.size)])
+
     # Index in crescent order of the singular values
 
     # Since the SVD gives the values in descending order, we just need to
